@@ -178,6 +178,11 @@ class DataResize:
         if m is None or len(o["shape"]) != m.data.ndim:
             return res(NOOP)
         new = tuple(int(x) for x in o["shape"])
+        for a in m.parent_.data_arrays:
+            for d in a.dimensions:
+                if d.link is not None and d.link.target is m and any(
+                        i != -1 and i >= new[q] for q, i in enumerate(d.link.index)):
+                    return res(NOOP)     # would invalidate a dimension link's vector index
         h = run.R(m, o.get("via", 0))
         r = run.call(lambda: setattr(h, "data_extent", new))
         run.expect_ok(r, "data_resize")
@@ -312,3 +317,120 @@ def stored_compression(run, m):
     """h5py Dataset.compression of the stored dataset (informational, see DESIGN C01)."""
     h = run.R(m, 0)
     return h._h5group.group["data"].compression
+
+
+# ------------------------------------------------------------------------------------------
+# calibration (C15)
+# ------------------------------------------------------------------------------------------
+def raw_peek(h):
+    """Stored values, bypassing the API (h5py peek at the dataset)."""
+    return h._h5group.group["data"][...]
+
+
+def check_raw(run, m, site):
+    h = run.R(m, 0)
+    raw = np.asarray(raw_peek(h))
+    want = m.data
+    if raw.shape != want.shape or raw.dtype != want.dtype or not np.array_equal(raw, want, equal_nan=want.dtype.kind == "f"):
+        run.violation("raw_changed", site, "stored_values", "stored raw values %r differ from what was written %r"
+                      % (raw.ravel()[:6], want.ravel()[:6]))
+    run.stats["raw_peeks"] += 1
+
+
+def poly(m, raw):
+    """The property's formula, evaluated by Horner in double precision."""
+    coeff = m.polynom_coefficients
+    origin = m.expansion_origin
+    if not (len(coeff) or origin):
+        return np.array(raw)
+    x = np.asarray(raw).astype(np.float64) - (float(origin) if origin else 0.0)
+    if not len(coeff):
+        return x
+    acc = np.zeros_like(x)
+    for c in reversed(coeff):
+        acc = acc * x + float(c)
+    return acc
+
+
+def check_views(run, m, h, site):
+    """Index-mode views read through the parent's calibration; slicing and calibration commute."""
+    if m.data.ndim < 1 or not m.data.size:
+        return
+    r = random.Random(zlib.crc32(repr((m.name, m.data.shape, "view")).encode()))
+    pos = [r.randrange(e) for e in m.data.shape]
+    ext = [r.randint(1, e - p) for e, p in zip(m.data.shape, pos)]
+    rr = run.call(lambda: h.get_slice(pos, ext))
+    if rr[0] == "exc":
+        run.violation("array_read", site, "get_slice_raises:" + type(rr[1]).__name__, repr(rr[1])[:200])
+    view = rr[1]
+    index = tuple(slice(p, p + e) for p, e in zip(pos, ext))
+    want = poly(m, m.data[index])
+    got = run.call(lambda: np.asarray(view[:]))
+    if got[0] == "exc":
+        run.violation("array_read", site, "view_read_raises:" + type(got[1]).__name__, repr(got[1])[:200])
+    _cmp(run, site, "view_all", got[1], want)
+    # an index expression inside the view
+    sub = tuple(r.randrange(e) for e in ext)
+    got = run.call(lambda: np.asarray(view[sub if len(sub) > 1 else sub[0]]))
+    if got[0] == "exc":
+        run.violation("array_read", site, "view_elem_raises:" + type(got[1]).__name__, repr(got[1])[:200])
+    w = np.asarray(want[sub]).reshape(-1)
+    _cmp(run, site, "view_element", np.asarray(got[1]).reshape(-1), w)
+    run.stats["view_reads"] += 1
+
+
+@op("calib_tag_read")
+class CalibTagRead:
+    """Metamorphic oracle for the tag / feature read paths: the region read with the calibration
+    set must equal the polynomial of the same region read with the calibration cleared."""
+
+    def gen(self, run, rng):
+        ts = [t for t in run.enum("tag") if t.references or t.features]
+        if not ts:
+            return None
+        return {"op": "calib_tag_read", "tag": idx(rng), "which": idx(rng), "feat": rng.random() < 0.4}
+
+    def do(self, run, o):
+        ts = [t for t in run.enum("tag") if t.references or t.features]
+        if not ts:
+            return res(NOOP)
+        t = ts[o["tag"] % len(ts)]
+        use_feat = o.get("feat") and t.features
+        if use_feat:
+            f = t.features[o["which"] % len(t.features)]
+            m = f.data
+            i = t.features.index(f)
+        else:
+            if not t.references:
+                return res(NOOP)
+            i = o["which"] % len(t.references)
+            m = t.references[i]
+        if m is None or m.is_text or m.data.dtype.kind == "b" or not (len(m.polynom_coefficients) or m.expansion_origin):
+            return res(NOOP)
+        th = run.R(t, 0)
+        ah = run.R(m, 0)
+        fn = (lambda: np.asarray(th.feature_data(i)[:])) if use_feat else (lambda: np.asarray(th.tagged_data(i)[:]))
+        r1 = run.call(fn)
+        if r1[0] == "exc":
+            run.stats["tag_read_unavailable"] += 1
+            return res(NOOP)      # region not resolvable (no descriptors / out of bounds): C08's business
+        coeff, origin = m.polynom_coefficients, m.expansion_origin
+        auto = run.fstate().real.auto_update_timestamps
+        run.fstate().real.auto_update_timestamps = False
+        try:
+            ah.polynom_coefficients = None
+            ah.expansion_origin = None
+            r0 = run.call(fn)
+        finally:
+            ah.polynom_coefficients = list(coeff) if len(coeff) else None
+            ah.expansion_origin = origin
+            run.fstate().real.auto_update_timestamps = auto
+        if r0[0] == "exc":
+            run.violation("array_read", "tag_read", "raw_region_raises", repr(r0[1])[:200])
+        raw = r0[1]
+        if raw.size and raw.dtype != m.data.dtype:
+            run.violation("array_read", "tag_read", "raw_dtype", "%r vs %r" % (raw.dtype, m.data.dtype))
+        want = poly(m, raw)
+        _cmp(run, "feature_data" if use_feat else "tagged_data", "calibrated_region", r1[1], want)
+        run.stats["tag_path_calibrated_reads"] += 1
+        return res(OK)
